@@ -595,6 +595,12 @@ func (rs *runState) runDiff(spec *diffSpec) {
 							}
 							return
 						}
+						if res.fail.Hang {
+							p := j.db.progs[0]
+							rs.addViolation(&violationT{Kind: "hang", Signature: "hang", What: fmt.Sprintf("%s: the compiled code did not finish a case the reference completes at once (%s)", p.Name, res.fail.Diag),
+								Program: p, Stage: res.fail, SourceS: b.srcS, Output: res.outO, Style: j.db.style, NeedU: opts.needU})
+							return
+						}
 						if res.fail.Timeout {
 							rs.infraProblem(fmt.Sprintf("runner timed out in case %q", res.crashed))
 							return
@@ -681,7 +687,7 @@ func (rs *runState) finish() int {
 		if reported >= 6 {
 			break
 		}
-		if v.Program != nil && os.Getenv("VERIF_NOSHRINK") == "" {
+		if v.Program != nil && os.Getenv("VERIF_NOSHRINK") == "" && v.Kind != "hang" /* every candidate would cost the watchdog's budget */ {
 			v = rs.shrink(v)
 		}
 		key := v.Kind + "|" + v.Signature + "|" + progHashOrEmpty(v.Program)
